@@ -151,6 +151,11 @@ impl Exec {
 
     /// Poll runnable tasks until none is runnable (or budget / busy loop).
     pub fn run(&mut self, budget: u64) -> RunEnd {
+        self.run_sampled(budget, &mut |_| {})
+    }
+
+    /// Same, calling `sample(step)` every 8 steps (statistics probes).
+    pub fn run_sampled(&mut self, budget: u64, sample: &mut dyn FnMut(u64)) -> RunEnd {
         let mut streak_task = usize::MAX;
         let mut streak = 0u64;
         let mut streak_progress = self.progress.get();
@@ -188,6 +193,9 @@ impl Exec {
             self.poll_task(i);
             if self.tasks[i].panicked.is_some() {
                 return RunEnd::Panicked;
+            }
+            if self.clock.get() % 8 == 0 {
+                sample(self.clock.get());
             }
         }
     }
@@ -252,7 +260,12 @@ impl Exec {
             }
             return;
         }
-        for t in self.tasks.iter_mut() {
+        // connection objects first (their Drop ends every stream), then the tasks holding stream handles:
+        // the order a runtime shutdown after the connection task has finished would produce
+        let mut order: Vec<usize> = (0..self.tasks.len()).collect();
+        order.sort_by_key(|&i| if matches!(self.tasks[i].group, Group::ClientConn | Group::ServerConn) { 0 } else { 1 });
+        for i in order {
+            let t = &mut self.tasks[i];
             if let Some(f) = t.fut.take() {
                 if std::panic::catch_unwind(std::panic::AssertUnwindSafe(move || drop(f))).is_err() && t.panicked.is_none() {
                     t.panicked = Some(format!("(in destructor at teardown) {}", crate::util::take_panic().unwrap_or_default()));
